@@ -2979,6 +2979,9 @@ class bs_rel_off(bs_cond_imm):
         parent_len = len(prefix) * 8 + self.parent.l + self.l
         assert(parent_len % 8 == 0)
 
+        if int(self.expr) >> l:
+            # The destination does not fit the offset size of this form
+            return
         v = (int(self.expr) - parent_len // 8) & ((1 << l) - 1)
         if prefix is None:
             return
